@@ -83,6 +83,100 @@ func genLayouts() error {
 		}
 		b.WriteString("]\n\n")
 	}
+	// the layout lists the parsers try, in order (ParseDate / ParseDateTime / ParseTime)
+	for _, pl := range []struct{ file, fn, v, out string }{
+		{"fhirpath/system/date.go", "ParseDate", "dateLayouts", "parseDateLayouts"},
+		{"fhirpath/system/date_time.go", "ParseDateTime", "dateTimeLayouts", "parseDateTimeLayouts"},
+		{"fhirpath/system/time.go", "ParseTime", "timeLayouts", "parseTimeLayouts"},
+	} {
+		_, pf, err := parseFile(pl.file)
+		if err != nil {
+			return err
+		}
+		var names []string
+		var prefix string
+		found := false
+		for _, d := range pf.Decls {
+			fd, ok := d.(*ast.FuncDecl)
+			if !ok || fd.Name.Name != pl.fn || fd.Body == nil {
+				continue
+			}
+			ast.Inspect(fd.Body, func(n ast.Node) bool {
+				switch x := n.(type) {
+				case *ast.AssignStmt:
+					if len(x.Lhs) == 1 && len(x.Rhs) == 1 {
+						if id, ok := x.Lhs[0].(*ast.Ident); ok && id.Name == pl.v {
+							if cl, ok := x.Rhs[0].(*ast.CompositeLit); ok {
+								found = true
+								for _, el := range cl.Elts {
+									names = append(names, selName(el))
+								}
+							}
+						}
+					}
+				case *ast.CallExpr:
+					if selName(x.Fun) == "strings.TrimPrefix" && len(x.Args) == 2 {
+						if bl, ok := x.Args[1].(*ast.BasicLit); ok {
+							prefix, _ = strconv.Unquote(bl.Value)
+						}
+					}
+				}
+				return true
+			})
+		}
+		if !found {
+			return fmt.Errorf("%s: layout list %s not found in %s", pl.file, pl.v, pl.fn)
+		}
+		b.WriteString(fmt.Sprintf("/-- %s tries these layouts in this order, after trimming the prefix %q -/\ndef %s : List String := [", pl.fn, prefix, pl.out))
+		for i, n := range names {
+			v, ok := strs[n]
+			if !ok {
+				return fmt.Errorf("%s: cannot resolve layout constant %s", pl.fn, n)
+			}
+			if i > 0 {
+				b.WriteString(", ")
+			}
+			b.WriteString(leanStr(v))
+		}
+		b.WriteString(fmt.Sprintf("]\ndef %sPrefix : String := %s\n\n", pl.out, leanStr(prefix)))
+	}
+	// Date.ToDateTime: date layout -> dateTime layout
+	{
+		_, pf, err := parseFile("fhirpath/system/date.go")
+		if err != nil {
+			return err
+		}
+		var pairs [][2]string
+		for _, d := range pf.Decls {
+			fd, ok := d.(*ast.FuncDecl)
+			if !ok || fd.Name.Name != "ToDateTime" || fd.Body == nil {
+				continue
+			}
+			ast.Inspect(fd.Body, func(n ast.Node) bool {
+				if cl, ok := n.(*ast.CompositeLit); ok {
+					if _, isMap := cl.Type.(*ast.MapType); isMap {
+						for _, el := range cl.Elts {
+							if kv, ok := el.(*ast.KeyValueExpr); ok {
+								pairs = append(pairs, [2]string{strs[selName(kv.Key)], strs[selName(kv.Value)]})
+							}
+						}
+					}
+				}
+				return true
+			})
+		}
+		if len(pairs) == 0 {
+			return fmt.Errorf("date.go: ToDateTime layout map not found")
+		}
+		b.WriteString("/-- Date.ToDateTime: the dateTime layout a date layout becomes -/\ndef dateToDateTime : List (String × String) := [")
+		for i, pr := range pairs {
+			if i > 0 {
+				b.WriteString(", ")
+			}
+			b.WriteString(fmt.Sprintf("(%s, %s)", leanStr(pr[0]), leanStr(pr[1])))
+		}
+		b.WriteString("]\n\n")
+	}
 	b.WriteString("def precOf (m : List (String × Nat)) (layout : String) : Option Nat := (m.find? (fun p => p.1 == layout)).map (·.2)\n\n")
 	b.WriteString("end FP.Gen.Layouts\n")
 	emit("Layouts", b.String())
